@@ -57,9 +57,10 @@ EncryptedLen(n, T) == 48 + 20 * T + 16 * ((n \div 16) + 1)
 
 \* verify: 0 ok, 4 magic, 1 too short, 3 mode byte out of range, 2 tag mismatch
 \* (order of the checks as in runcrypt::verify; only zero / non-zero is a property)
-Verify(f, key) ==
+Verify(f, key, T) ==
   IF Len(f) < 8 \/ Take(f, 8) # Magic THEN 4
   ELSE IF Len(f) >= 10 /\ (f[9] > 4 \/ f[10] > 2) THEN 3
+  ELSE IF Len(f) < TextMark(T) + 16 \/ (Len(f) - TextMark(T)) % 16 # 0 THEN 1     \* body = whole blocks, at least one
   ELSE IF Len(f) < 74 THEN 1
   ELSE IF ~H!CmpTag(f[10], Slice(f, 10, 64), H!Mac(f[10], key, Drop(f, 48))) THEN 2
   ELSE 0
